@@ -753,7 +753,18 @@ impl GlobalInferenceCtx<'_> {
                 let local_def = &self.bodies[*local_def];
 
                 if let Some(value) = local_def.value {
-                    self.get_mutability(value, false, deref)
+                    let from_value = self.get_mutability(value, false, deref);
+
+                    // if the local is itself the pointer being dereferenced, then the pointer's
+                    // *type* has the last word (not the expression that happened to initialize
+                    // it): `p : ^i32 = ^mut x; p^ = 1;` must not be allowed
+                    if matches!(from_value, ExprMutability::Mutable)
+                        && matches!(self.tys[self.loc][expr].as_pointer(), Some((false, _)))
+                    {
+                        return ExprMutability::ImmutableRef(local_def.range);
+                    }
+
+                    from_value
                 } else {
                     // todo: does this make sense?
                     ExprMutability::Mutable
@@ -839,7 +850,13 @@ impl GlobalInferenceCtx<'_> {
                     ),
                 }
             }
-            Expr::Call { .. } if deref => ExprMutability::Mutable,
+            // the mutability of a returned pointer is in its type
+            Expr::Call { .. } if deref => match self.tys[self.loc][expr].as_pointer() {
+                Some((false, _)) => {
+                    ExprMutability::ImmutableRef(self.bodies.range_for_expr(expr))
+                }
+                _ => ExprMutability::Mutable,
+            },
             Expr::Cast { .. } if deref => {
                 let ty = self.tys[self.loc][expr];
 
